@@ -12,7 +12,7 @@ check('C02', 'other',
       'lifting of the per-primitive lemmas to circuits is a paper induction; translation and composition are bounded evidence only',
       'contract-based deductive verification (modular calls, loop invariant) + finite lemmas in z3 + bounded stand-in', 'DESIGN.md 5-C02')
 check('C08', 'other',
-      'Proved (unbounded): Heap.__init__/alloc/free re-establish HeapInv with the abstract-view postconditions (all histories by induction); the allocation phase of SimOps.__init__ against the Heap contract with ghost reference counting: operands live when read, live slots disjoint, freed only when unreferenced and unpinned, pinned slots never freed, regions inside c_len, exact aliasing, no double free. Bounded: same invariant on all histories up to a stated length on the real Heap; MapValid and the requires of the phase contracts on real SimOps instances.',
+      'Proved (unbounded): Heap.__init__/alloc/free re-establish HeapInv with the abstract-view postconditions (all histories by induction); the allocation phase of SimOps.__init__ against the Heap contract with ghost reference counting: operands live when read, live slots disjoint, freed only when unreferenced and unpinned, pinned slots never freed, regions inside c_len, exact aliasing, no double free; the slot layout; the stems table per fork (first upstream line not driven by a fork with input). Bounded: same invariant on all histories up to a stated length on the real Heap; MapValid and the requires of the phase contracts on real SimOps instances.',
       'translation phase (ops, stems) bounded; its guarantees are the requires of the phase contracts and are evaluated on real instances; bisect/insort library contracts assumed',
       'contract-based: representation invariant + abstract-view postconditions (pyvc) with exhaustive-history bounded stand-in', 'DESIGN.md 5-C08')
 check('C16', 'other',
